@@ -623,7 +623,7 @@ pub fn def(tier: Tier) -> PropertyDef {
 		if name == "DetrendedPriceOscillator" {
 			continue; // no signals
 		}
-		checks.push(pt(&format!("signals_{name}"), tier.pick(1500, 8000), strategy(name, max_len), run));
+		checks.push(pt(&format!("signals_{name}"), tier.pick(4000, 12000), strategy(name, max_len), run));
 	}
 	PropertyDef {
 		id: "C06",
